@@ -23,6 +23,7 @@ def run(v, tier):
             nb += 1
             continue
         cases.append({'fam': 'interps', 'entry': 'expr', 'args': q['module'], 'advertised': r['advertised'], 'interps': r['interps']})
+    cases = [c for c in cases if not any('RecursionError' in i['out'] for i in c['interps'])]     # resource limit, not an outcome
     v.cov['expressions'] = len(cases)
     v.cov['expressions_refused_by_static_rules'] = nb
     v.sample({'module': cases[-1]['args'], 'outcomes': [[i['interp'], i['out']] for i in cases[-1]['interps']]})
